@@ -5,7 +5,7 @@ VERIF = os.path.dirname(os.path.dirname(os.path.abspath(__file__)))
 res_path = os.path.join(VERIF, "seeded", "RESULTS.json")
 results = json.load(open(res_path)) if os.path.exists(res_path) else {}
 only = set(sys.argv[1:])
-for d in sorted(glob.glob(os.path.join(VERIF, "seeded", "C*-*m[12]"))):
+for d in sorted(glob.glob(os.path.join(VERIF, "seeded", "C*-*m[123]"))):
     name = os.path.basename(d)
     if only and name not in only and name.split("-")[0] not in only:
         continue
